@@ -118,6 +118,7 @@ var propOverrides = map[string]func(*propCfg){
 	"C21": func(c *propCfg) { c.quickRuns, c.quickSecs = 1500, 100 },
 	"C22": func(c *propCfg) { c.quickRuns, c.quickSecs = 1500, 110 },
 	"C23": func(c *propCfg) { c.quickRuns, c.quickSecs = 800, 100 },
+	"C29": func(c *propCfg) { c.quickRuns, c.quickSecs = 1500, 100 },
 	"C41": func(c *propCfg) {
 		c.race = true
 		c.quickRuns, c.quickSecs = 160, 150 // a race-detector run costs ~0.7 s of (mostly kernel) time and does not parallelise well in this VM
@@ -390,16 +391,35 @@ func (a *agg) add(prop string, p *plan.Plan, res *plan.Result) {
 		a.samples = append(a.samples, map[string]any{"seed": p.Seed, "knobs": p.K, "actors": summarizeActors(p), "faults": p.Faults, "events": p.Events, "stats": res.Stats, "trace": res.TraceHash})
 	}
 	for _, v := range res.Violations {
-		if strings.HasPrefix(v.Class, prop+"/") {
+		if judges(prop, v.Class) {
 			a.viols = append(a.viols, found{p, res, v})
 			break
 		}
 	}
 	for _, v := range res.Violations {
-		if !strings.HasPrefix(v.Class, prop+"/") {
+		if !judges(prop, v.Class) {
 			a.other[v.Class]++
 		}
 	}
+}
+
+// alsoJudges: oracle classes filed under another property that are part of a
+// property's own oracle (C29's end-to-end clause is C02's exactly-once oracle
+// on runs that cross the sequence wrap).
+var alsoJudges = map[string][]string{
+	"C29": {"C02/acked/", "C02/failed-but-written/", "C02/log/", "C18/sequence/"},
+}
+
+func judges(prop, class string) bool {
+	if strings.HasPrefix(class, prop+"/") {
+		return true
+	}
+	for _, pfx := range alsoJudges[prop] {
+		if strings.HasPrefix(class, pfx) {
+			return true
+		}
+	}
+	return false
 }
 
 func summarizeActors(p *plan.Plan) []string {
